@@ -218,6 +218,17 @@ class Roles:
 
     def _one(self, ng, pred, what):
         c = [k for k, b in ng.items() if pred(sig(b))]
+        if len(c) > 1:
+            # wrappers that delegate to another candidate are not the role itself
+            def calls_other(k):
+                for blk in ng[k]["blocks"]:
+                    t = blk["term"]
+                    if t["k"] == "call" and F.callee_name(t) in c and F.callee_name(t) != k:
+                        return True
+                return False
+            base = [k for k in c if not calls_other(k)]
+            if len(base) == 1:
+                c = base
         if len(c) != 1:
             raise KeyError("%s matches %d bodies: %s" % (what, len(c), c[:4]))
         return c[0]
